@@ -436,7 +436,8 @@ CAT_GENERIC_DEPTH = {"dejitter_sub": (5, 6), "subpic_schedule_sub": (5, 6), "pla
 #   0/1 set_flow_def(F1/F2)  3/7 input (plain / shared)  38 the reference input's pump  11 toggle S0  10/8 set_output(NULL/S0)  31 release(sub0)  40 release
 _CONT_ONLY = "0,1,3,7,38,11,10,8,31,29,43"   # 43 = release (operation numbers: see the OP_ enum of pipex_cat.c)
 #   blit: 33 dispatch(ready pump 0)   14 / 18 / 22 / 26 one value of each option of subpipe 0 (rect, alpha, alpha threshold, z-index)
-CAT_EXTRA = {"play": [(["--prefix", "29,29,0,30", "--only", "3,4,42,1,31,32,43"], 4, 5)],
+CAT_EXTRA = {"buffer": [(["--prefix", "0,8,16", "--only", "3,4,5,7,33,34,38,12"], 5, 6)],   # definition, output, max_size 6: then only data and the loop
+             "play": [(["--prefix", "29,29,0,30", "--only", "3,4,42,1,31,32,43"], 4, 5)],
              "blit": [(["--prefix", "29,8,0", "--only", "0,1,3,7,38,33,11,31,14,18,22,26,43"], 4, 5)],
              "audiocont": [(["--prefix", "29,8,0", "--only", _CONT_ONLY], 5, 6)],
              # grid: grid input and grid output allocated, the output's output connected (30 sub.set_output)
